@@ -258,6 +258,11 @@ fn hazards() -> Vec<(String, Vec<u8>)> {
     for c in 2..=4u8 {
         out.push((format!("arch:garbage under codec {c}"), arch(&[0x1f, 0x8b, 8, 0, 0, 0, 0xff, 0xff], &[], &[1], &|h| h.icomp = c)));
     }
+    // very many distinct tiles that each declare a length of 2^32 - 1 (nothing may be sized from declared lengths)
+    for n in [70_000u64, 300] {
+        let many = dir(&[vec![1; n as usize], vec![1; n as usize], vec![0xffff_ffff; n as usize], (0..n).map(|i| 3 * i + 2).collect()], n);
+        out.push((format!("arch:{n} tiles declaring 4 GiB each"), arch(&many, &[], &[1, 2, 3, 4, 5, 6, 7, 8, 9], &|_| {})));
+    }
     out
 }
 
